@@ -18,3 +18,221 @@ package admin
 //@   ensures [C11:open_only_without_tokens] len(allowed) == 0 ==> result
 //@   ensures [C11:accept_implies_listed_token] len(allowed) > 0 && result ==> bearerWellFormed(headerGet(r.Header, "Authorization")) && tokenListed(allowed, bearerToken(headerGet(r.Header, "Authorization")))
 //@   ensures [C11:listed_token_accepted] len(allowed) > 0 && bearerWellFormed(headerGet(r.Header, "Authorization")) && tokenListed(allowed, bearerToken(headerGet(r.Header, "Authorization"))) ==> result
+
+// ---- C15: admin publish is validated and all-or-nothing ----
+
+//@ spec
+//@ ghost var lastHdrBytes int
+//@ ghost var lastHdrMap map[string]string
+//@ set PUBLISH_ITEM_CODES = {"invalid_received_at", "invalid_next_run_at", "invalid_payload_b64", "payload_too_large", "invalid_header", "headers_too_large"}
+//@ pred itemShapeOK(env queue.Envelope, id string, route string, target string) := env.ID == trim(id) && env.Route == route && env.Target == target && env.State == queue.StateQueued && env.Attempt == 0 && env.LeaseID == "" && env.LeaseUntil == 0 && env.DeadReason == ""
+//@ func effBody(m int64) int := ite(m > 0, m, 2097152)
+//@ func effHdr(m int) int := ite(m > 0, m, 65536)
+
+//@ func publishHeadersBytes
+//@   modifies lastHdrBytes, lastHdrMap
+//@   sets lastHdrBytes := result
+//@   sets lastHdrMap := headers
+//@   loop 1 invariant [nonneg_and_dominates] total >= 0 && forall k string :: k in visited ==> total >= len(k) + len(headers[k])
+//@   ensures [tied] lastHdrBytes == result && lastHdrMap == headers
+//@   ensures [C15:size_counts_every_header] result >= 0 && forall k string :: k in headers ==> result >= len(k) + len(headers[k])
+
+//@ func parseTimeParam
+//@   trusted
+//@   ensures raw == "" ==> result1 && result0 == 0
+
+//@ func publishEnvelopeFromItem
+//@   modifies lastHdrBytes, lastHdrMap, acceptedIDs
+//@   sets acceptedIDs := ite(result1 == "", add(old(acceptedIDs), result0.ID), old(acceptedIDs))
+//@   ensures [tied] acceptedIDs == ite(result1 == "", add(old(acceptedIDs), result0.ID), old(acceptedIDs))
+//@   ensures [C15:accepted_item_has_ingress_shape] result1 == "" ==> itemShapeOK(result0, item.ID, route, target) && result0.Headers == item.Headers && result0.Trace == item.Trace
+//@   ensures [C15:accepted_payload_is_the_decoded_body_within_max_body] result1 == "" ==> len(result0.Payload) <= effBody(maxBodyBytes) && (trim(item.PayloadB64) == "" ==> len(result0.Payload) == 0) && (trim(item.PayloadB64) != "" ==> result0.Payload == b64decOf(item.PayloadB64) && b64validOf(item.PayloadB64))
+//@   ensures [C15:accepted_headers_valid_and_within_max_headers] result1 == "" ==> (forall k string :: k in item.Headers ==> headerOK(k, item.Headers[k])) && lastHdrMap == item.Headers && lastHdrBytes <= effHdr(maxHeaderBytes)
+//@   ensures [C15:rejection_carries_an_item_code] result1 != "" ==> result1 in PUBLISH_ITEM_CODES
+//@   ensures [C15:valid_item_is_not_rejected_for_headers] result1 == "invalid_header" ==> !(forall k string :: k in item.Headers ==> headerOK(k, item.Headers[k]))
+
+//@ func resolvePublishTarget
+//@   loop 1 invariant [none_before] forall j int :: 0 <= j && j <= rangeindex ==> trim(old(target)) != trim(allowedTargets[j])
+//@   ensures [C15:resolved_target_is_an_allowed_target] result1 ==> exists j int :: 0 <= j && j < len(allowedTargets) && (result0 == trim(allowedTargets[j]) || (trim(target) == "" && len(allowedTargets) == 1 && result0 == allowedTargets[0]))
+//@   ensures [C15:unresolved_names_no_target] !result1 ==> result0 == ""
+//@   ensures [C15:named_allowed_target_resolves] trim(target) != "" && (exists j int :: 0 <= j && j < len(allowedTargets) && trim(target) == trim(allowedTargets[j])) ==> result1 && result0 == trim(target)
+
+// decodeJSONBodyStrict writes only the object it is handed (one of the four request types below) and memory it allocates
+//@ func decodeJSONBodyStrict
+//@   trusted
+//@   modifies messagesPublishRequest.*, managementEndpointUpsertPayload.*, dlqManageRequest.*, messagesManageFilterRequest.*
+
+//@ func parsePublishItemsWithSelectorRequirement
+//@   requires r != nil
+//@   modifies messagesPublishRequest.*
+//@   loop 1 invariant [prefix_copied] len(items) == rangeindex + 1 && len(items) <= len(req.Items) && forall k int :: 0 <= k && k < len(items) ==> items[k].ID == req.Items[k].ID && items[k].Route == req.Items[k].Route && items[k].Target == req.Items[k].Target && items[k].Application == req.Items[k].Application && items[k].EndpointName == req.Items[k].EndpointName && items[k].PayloadB64 == req.Items[k].PayloadB64 && items[k].Headers == req.Items[k].Headers
+//@   loop 1 invariant [ids_present] forall k int :: 0 <= k && k < len(items) ==> trim(items[k].ID) != ""
+//@   loop 1 invariant [seen_is_the_ids_so_far] forall id string :: id in seen <==> exists k int :: 0 <= k && k < len(items) && trim(items[k].ID) == id
+//@   loop 1 invariant [ids_distinct] forall j int, k int :: 0 <= j && j < k && k < len(items) ==> trim(items[j].ID) != trim(items[k].ID)
+//@   loop 1 invariant [routes_absolute] forall k int :: 0 <= k && k < len(items) ==> trim(items[k].Route) == "" || prefixof("/", trim(items[k].Route))
+//@   loop 1 invariant [selectors_paired] forall k int :: 0 <= k && k < len(items) ==> ((trim(items[k].Application) == "") <==> (trim(items[k].EndpointName) == ""))
+//@   ensures [C15:parsed_batch_has_1_to_1000_items] result1 == nil ==> len(result0) >= 1 && len(result0) <= 1000
+//@   ensures [C15:parsed_ids_present_and_unique_within_batch] result1 == nil ==> (forall k int :: 0 <= k && k < len(result0) ==> trim(result0[k].ID) != "") && (forall j int, k int :: 0 <= j && j < k && k < len(result0) ==> trim(result0[j].ID) != trim(result0[k].ID))
+//@   ensures [C15:parsed_routes_absolute_and_selectors_paired] result1 == nil ==> forall k int :: 0 <= k && k < len(result0) ==> (trim(result0[k].Route) == "" || prefixof("/", trim(result0[k].Route))) && ((trim(result0[k].Application) == "") <==> (trim(result0[k].EndpointName) == ""))
+//@   ensures [C15:parse_error_returns_no_items_and_names_body_or_item] result1 != nil ==> len(result0) == 0 && result1.ItemIndex >= -1 && result1.Code == "invalid_body"
+
+//@ func parsePublishItems
+//@   requires r != nil
+//@   modifies messagesPublishRequest.*
+//@   ensures [C15:parsed_batch_has_1_to_1000_items] result1 == nil ==> len(result0) >= 1 && len(result0) <= 1000
+//@   ensures [C15:parsed_ids_present_and_unique_within_batch] result1 == nil ==> (forall k int :: 0 <= k && k < len(result0) ==> trim(result0[k].ID) != "") && (forall j int, k int :: 0 <= j && j < k && k < len(result0) ==> trim(result0[j].ID) != trim(result0[k].ID))
+//@   ensures [C15:parsed_routes_absolute_and_selectors_paired] result1 == nil ==> forall k int :: 0 <= k && k < len(result0) ==> (trim(result0[k].Route) == "" || prefixof("/", trim(result0[k].Route))) && ((trim(result0[k].Application) == "") <==> (trim(result0[k].EndpointName) == ""))
+//@   ensures [C15:parse_error_returns_no_items_and_names_body_or_item] result1 != nil ==> len(result0) == 0 && result1.ItemIndex >= -1 && result1.Code == "invalid_body"
+
+//@ func parseScopedPublishItems
+//@   requires r != nil
+//@   modifies messagesPublishRequest.*
+//@   ensures [C15:parsed_batch_has_1_to_1000_items] result1 == nil ==> len(result0) >= 1 && len(result0) <= 1000
+//@   ensures [C15:parsed_ids_present_and_unique_within_batch] result1 == nil ==> (forall k int :: 0 <= k && k < len(result0) ==> trim(result0[k].ID) != "") && (forall j int, k int :: 0 <= j && j < k && k < len(result0) ==> trim(result0[j].ID) != trim(result0[k].ID))
+//@   ensures [C15:parsed_routes_absolute_and_selectors_paired] result1 == nil ==> forall k int :: 0 <= k && k < len(result0) ==> (trim(result0[k].Route) == "" || prefixof("/", trim(result0[k].Route))) && ((trim(result0[k].Application) == "") <==> (trim(result0[k].EndpointName) == ""))
+//@   ensures [C15:parse_error_returns_no_items_and_names_body_or_item] result1 != nil ==> len(result0) == 0 && result1.ItemIndex >= -1 && result1.Code == "invalid_body"
+
+//@ func publishEnvelopeIDs
+//@   loop 1 invariant [aligned_while_ids_present] rangeindex < len(envelopes) && ((forall k int :: 0 <= k && k <= rangeindex ==> trim(envelopes[k].ID) != "") ==> len(ids) == rangeindex + 1 && forall k int :: 0 <= k && k < len(ids) ==> ids[k] == trim(envelopes[k].ID))
+//@   ensures [C15:ids_aligned_with_the_batch] (forall k int :: 0 <= k && k < len(envelopes) ==> trim(envelopes[k].ID) != "") ==> len(result) == len(envelopes) && forall k int :: 0 <= k && k < len(result) ==> result[k] == trim(envelopes[k].ID)
+
+//@ func firstExistingMessageIDIndex
+//@   requires forall j int, k int :: 0 <= j && j < k && k < len(ids) ==> trim(ids[j]) != trim(ids[k])
+//@   requires forall k int :: 0 <= k && k < len(ids) ==> trim(ids[k]) != ""
+//@   loop 1 invariant [index_of_every_id_so_far] rangeindex < len(ids) && (forall j int :: 0 <= j && j <= rangeindex ==> trim(ids[j]) in indexByID && indexByID[trim(ids[j])] == j) && (forall id string :: id in indexByID ==> 0 <= indexByID[id] && indexByID[id] <= rangeindex && trim(ids[indexByID[id]]) == id)
+//@   loop 2 invariant [best_is_the_minimum_so_far] rangeindex < len(lookup.Items) && (bestID == "" <==> bestIdx == len(ids) + 1) && (bestID != "" ==> 0 <= bestIdx && bestIdx < len(ids) && trim(ids[bestIdx]) == bestID && bestID in storeIDs) && (forall k int :: 0 <= k && k <= rangeindex && trim(lookup.Items[k].ID) in indexByID ==> bestIdx <= indexByID[trim(lookup.Items[k].ID)])
+//@   ensures [C15:no_duplicate_reported_means_no_listed_id_is_in_the_queue] store != nil && result2 == nil && result0 < 0 ==> forall j int :: 0 <= j && j < len(ids) ==> !(trim(ids[j]) in storeIDs)
+//@   ensures [C15:reported_duplicate_exists_and_is_the_first_one] result0 >= 0 ==> result2 == nil && result0 < len(ids) && trim(ids[result0]) in storeIDs && result1 == trim(ids[result0]) && forall j int :: 0 <= j && j < result0 ==> !(trim(ids[j]) in storeIDs)
+//@   ensures [C15:lookup_failure_is_reported] result2 != nil ==> result0 < 0
+
+//@ func normalizePublishTargets
+//@   loop 1 invariant [clean_subset] rangeindex < len(targets) && forall k int :: 0 <= k && k < len(out) ==> out[k] != "" && trim(out[k]) == out[k] && exists j int :: 0 <= j && j <= rangeindex && out[k] == trim(targets[j])
+//@   ensures [C15:normalized_targets_are_configured_targets] forall k int :: 0 <= k && k < len(result) ==> result[k] != "" && trim(result[k]) == result[k] && exists j int :: 0 <= j && j < len(targets) && result[k] == trim(targets[j])
+
+// -- the configuration callbacks the admin server is wired with: deterministic per request (assumed) --
+//@ spec
+//@ ufunc routeHasTarget(route string, target string) bool
+//@ ufunc routePublishEnabled(route string) bool
+//@ ufunc routeDirectEnabled(route string) bool
+//@ ufunc routeManagedEnabled(route string) bool
+//@ ufunc routeModeOf(route string) string
+//@ ufunc routeMaxBody(route string) int
+//@ ufunc routeMaxHdr(route string) int
+//@ ufunc ownershipManaged(route string) bool
+//@ ghost var directPolicyOK set[string]
+//@ ghost var managedPolicyOK set[string]
+//@ ghost var acceptedIDs set[string]
+//@ ghost var publishErrIndex int
+//@ ghost var publishErrCode string
+
+//@ fieldfunc admin.Server.TargetsForRoute(route) (targets)
+//@   ensures forall j int :: 0 <= j && j < len(targets) ==> routeHasTarget(route, trim(targets[j]))
+//@ fieldfunc admin.Server.ModeForRoute(route) (mode)
+//@   ensures mode == routeModeOf(route)
+//@ fieldfunc admin.Server.PublishEnabledForRoute(route) (ok)
+//@   ensures ok == routePublishEnabled(route)
+//@ fieldfunc admin.Server.PublishDirectEnabledForRoute(route) (ok)
+//@   ensures ok == routeDirectEnabled(route)
+//@ fieldfunc admin.Server.PublishManagedEnabledForRoute(route) (ok)
+//@   ensures ok == routeManagedEnabled(route)
+//@ fieldfunc admin.Server.LimitsForRoute(route) (maxBodyBytes, maxHeaderBytes)
+//@   ensures maxBodyBytes == routeMaxBody(route) && maxHeaderBytes == routeMaxHdr(route)
+//@ fieldfunc admin.Server.ObservePublishResult(event)
+//@ fieldfunc admin.Server.AuditManagementMutation(event)
+
+//@ extern encoding/json.NewEncoder(w) (enc)
+//@   ensures enc != nil
+//@ extern encoding/json.(*Encoder).Encode(enc, v) (err)
+//@   modifies respStatus
+//@   ensures respStatus == ite(old(respStatus) == 0, 200, old(respStatus))
+
+//@ spec
+//@ func effPublishBody(s *Server, route string) int := ite(s.LimitsForRoute != nil && routeMaxBody(trim(route)) > 0, routeMaxBody(trim(route)), ite(s.MaxBodyBytes > 0, s.MaxBodyBytes, 2097152))
+//@ func effPublishHdr(s *Server, route string) int := ite(s.LimitsForRoute != nil && routeMaxHdr(trim(route)) > 0, routeMaxHdr(trim(route)), ite(s.MaxHeaderBytes > 0, s.MaxHeaderBytes, 65536))
+//@ func effMode(s *Server, route string, targets []string) string := let m := lower(trim(routeModeOf(trim(route)))) :: ite(s.ModeForRoute != nil && (m == "pull" || m == "deliver"), m, ite(len(targets) == 1 && trim(targets[0]) == "pull", "pull", ite(len(targets) > 0, "deliver", "")))
+//@ pred routePolicyOK(s *Server, route string, targets []string, scoped bool) := (s.PublishEnabledForRoute == nil || routePublishEnabled(trim(route))) && (scoped ==> s.PublishManagedEnabledForRoute == nil || routeManagedEnabled(trim(route))) && (!scoped ==> s.PublishDirectEnabledForRoute == nil || routeDirectEnabled(trim(route))) && (effMode(s, route, targets) == "pull" ==> s.PublishAllowPullRoutes) && (effMode(s, route, targets) == "deliver" ==> s.PublishAllowDeliverRoutes)
+
+//@ func (*Server).publishMaxBodyBytes
+//@   requires s != nil
+//@   ensures [C15:route_max_body_else_server_default] result == effPublishBody(s, route) && result > 0
+//@ func (*Server).publishMaxHeaderBytes
+//@   requires s != nil
+//@   ensures [C15:route_max_headers_else_server_default] result == effPublishHdr(s, route) && result > 0
+//@ func (*Server).publishEnabledForRoute
+//@   requires s != nil
+//@   ensures result <==> (s.PublishEnabledForRoute == nil || routePublishEnabled(trim(route)))
+//@ func (*Server).publishDirectEnabledForRoute
+//@   requires s != nil
+//@   ensures result <==> (s.PublishDirectEnabledForRoute == nil || routeDirectEnabled(trim(route)))
+//@ func (*Server).publishManagedEnabledForRoute
+//@   requires s != nil
+//@   ensures result <==> (s.PublishManagedEnabledForRoute == nil || routeManagedEnabled(trim(route)))
+//@ func (*Server).publishRouteMode
+//@   requires s != nil
+//@   ensures result == effMode(s, route, targets)
+//@ func (*Server).publishRoutePolicyError
+//@   requires s != nil
+//@   modifies directPolicyOK, managedPolicyOK
+//@   sets directPolicyOK := ite(result0 == "" && !scoped, add(old(directPolicyOK), route), old(directPolicyOK))
+//@   sets managedPolicyOK := ite(result0 == "" && scoped, add(old(managedPolicyOK), route), old(managedPolicyOK))
+//@   ensures [tied] directPolicyOK == ite(result0 == "" && !scoped, add(old(directPolicyOK), route), old(directPolicyOK)) && managedPolicyOK == ite(result0 == "" && scoped, add(old(managedPolicyOK), route), old(managedPolicyOK))
+//@   ensures [C15:no_error_iff_route_and_global_policy_permit_publish] result0 == "" <==> routePolicyOK(s, route, targets, scoped)
+
+//@ func (*Server).observePublishRejected
+//@   trusted
+//@ func (*Server).observePublishAccepted
+//@   trusted
+//@ func (*Server).emitManagementMutationAudit
+//@   trusted
+//@ func publishTargetUnresolvableDetail
+//@   trusted
+//@ func (*Server).managedRouteSet
+//@   trusted
+//@ func (*Server).lookupManagementEndpointByRouteOwnershipStatus
+//@   trusted
+//@   ensures result.Managed == ownershipManaged(trim(route))
+//@ func formatScopedManagedActorPolicyDetail
+//@   trusted
+//@ func (*Server).publishScopedManagedActorAllowed
+//@   trusted
+//@ func (*Server).publishScopedManagedActorPolicyEnabled
+//@   ensures result <==> s != nil && (len(s.PublishScopedManagedActorAllowlist) > 0 || len(s.PublishScopedManagedActorPrefixes) > 0)
+
+//@ func (*Server).writePublishError
+//@   requires s != nil && w != nil && status >= 100
+//@   modifies respStatus, publishErrIndex, publishErrCode, maps(http.Header)
+//@   sets publishErrIndex := itemIndex
+//@   sets publishErrCode := code
+//@   ensures [C15:error_status_written] respStatus == ite(old(respStatus) == 0, status, old(respStatus)) && publishErrIndex == itemIndex && publishErrCode == code
+
+//@ func parseManagementAudit
+//@   requires r != nil && r.Header != nil
+//@   ensures [C15:accepted_audit_has_a_reason_when_required] result1 && requireReason ==> result0.Reason != "" && result0.Reason == trim(headerGet(r.Header, "X-Hookaido-Audit-Reason"))
+//@   ensures [C15:missing_reason_refused] requireReason && trim(headerGet(r.Header, "X-Hookaido-Audit-Reason")) == "" ==> !result1
+
+//@ func (*Server).mutationAuditPolicyError
+//@   ensures [C15:no_error_means_required_identity_present] s != nil && result0 == "" ==> (s.PublishRequireAuditActor ==> trim(audit.Actor) != "") && (s.PublishRequireAuditRequestID ==> trim(audit.RequestID) != "")
+
+//@ func firstManagedPublishItemIndex
+//@   loop 1 invariant [none_before] rangeindex < len(items) && forall k int :: 0 <= k && k <= rangeindex ==> trim(items[k].Application) == "" && trim(items[k].EndpointName) == ""
+//@   ensures [C15:negative_means_no_managed_selector] result < 0 ==> forall k int :: 0 <= k && k < len(items) ==> trim(items[k].Application) == "" && trim(items[k].EndpointName) == ""
+//@   ensures [C15:index_names_the_first_managed_item] result >= 0 ==> result < len(items) && (trim(items[result].Application) != "" || trim(items[result].EndpointName) != "") && forall k int :: 0 <= k && k < result ==> trim(items[k].Application) == "" && trim(items[k].EndpointName) == ""
+
+//@ spec
+//@ pred globalItemOK(s *Server, env queue.Envelope, item messagesPublishItem, managedRoutes map[string]struct{}, managedRoutesAvailable bool) := itemShapeOK(env, item.ID, trim(item.Route), env.Target) && env.Route != "" && prefixof("/", env.Route) && env.Target != "" && routeHasTarget(env.Route, env.Target) && env.Route in directPolicyOK && env.ID in acceptedIDs && !ownershipManaged(env.Route) && !(managedRoutesAvailable && env.Route in managedRoutes) && trim(item.Application) == "" && trim(item.EndpointName) == ""
+
+//@ func (*Server).handleMessagesPublish
+//@   requires s != nil && r != nil && r.Header != nil && w != nil && respStatus == 0
+//@   modifies *
+//@   preserves Server.*
+//@   loop 1 invariant [no_response_and_no_enqueue_during_preflight] respStatus == 0 && batchCalls == old(batchCalls) && batchCommitted == old(batchCommitted) && enqueues == old(enqueues) && storeIDs == old(storeIDs)
+//@   loop 1 invariant [one_envelope_per_item] rangeindex < len(items) && len(prepared) == rangeindex + 1
+//@   loop 1 invariant [request_headers_untouched] headerGet(r.Header, "X-Hookaido-Audit-Reason") == old(headerGet(r.Header, "X-Hookaido-Audit-Reason"))
+//@   loop 1 invariant [every_envelope_preflighted] forall k int :: 0 <= k && k < len(prepared) ==> globalItemOK(s, prepared[k], items[k], managedRoutes, managedRoutesAvailable) && enqueueable(prepared[k])
+//@   calls queue.BatchEnqueuer.EnqueueBatch requires [C15:batch_is_every_item_and_each_passed_every_gate] respStatus == 0 && len(callee_items) == len(items) && forall k int :: 0 <= k && k < len(callee_items) ==> globalItemOK(s, callee_items[k], items[k], managedRoutes, managedRoutesAvailable)
+//@   calls queue.BatchEnqueuer.EnqueueBatch requires [C15:no_batch_id_is_already_in_the_queue] forall k int :: 0 <= k && k < len(callee_items) ==> !(callee_items[k].ID in storeIDs)
+//@   calls queue.BatchEnqueuer.EnqueueBatch requires [C15:global_path_enabled_and_audited] s.PublishGlobalDirectEnabled && (s.RequireManagementAuditReason ==> trim(headerGet(r.Header, "X-Hookaido-Audit-Reason")) != "")
+//@   ensures [C15:error_response_means_nothing_enqueued] implements(s.Store, "queue.BatchEnqueuer") && respStatus != 200 ==> batchCommitted == old(batchCommitted) && enqueues == old(enqueues) && storeIDs == old(storeIDs)
+//@   ensures [C15:ok_response_means_the_whole_batch_committed_in_one_call] implements(s.Store, "queue.BatchEnqueuer") && respStatus == 200 ==> batchCommitted == old(batchCommitted) + 1 && batchCalls == old(batchCalls) + 1 && lastBatchLen == len(local(items)) && lastBatchErr == nil
+//@   ensures [C15:always_answers] respStatus != 0
+//@   ensures [C15:item_errors_name_an_item_of_the_batch] respStatus != 200 && publishErrIndex >= 0 && len(local(items)) > 0 ==> publishErrIndex < len(local(items))
